@@ -1016,7 +1016,15 @@ impl Vec3A {
     pub fn rotate_towards(self, rhs: Self, max_angle: f32) -> Self {
         let angle_between = self.angle_between(rhs);
         // When `max_angle < 0`, rotate no further than `PI` radians away
-        let angle = max_angle.clamp(angle_between - core::f32::consts::PI, angle_between);
+        // `clamp` panics if a bound is NaN, which is the case for zero length or non-finite vectors
+        let min_angle = angle_between - core::f32::consts::PI;
+        let angle = if max_angle < min_angle {
+            min_angle
+        } else if max_angle > angle_between {
+            angle_between
+        } else {
+            max_angle
+        };
         let axis = self
             .cross(rhs)
             .try_normalize()
